@@ -25,6 +25,21 @@ theorem census_agrees_with_derivations :
     (CV.Gen.C14Progs.projectReturning.filter (fun r => r.2 == "Project")).map (·.1) =
       (CV.Gen.Derivations.derivations.map fun d => "Project." ++ d.1) ++ ["Project.deepCopy"] := by decide
 
+/-- the *views*: the methods of `Project` that hand out model state which is not a project are exactly these six.  They
+are readers — what they return shares the receiver's maps by design (a `ServiceConfig` value holds the receiver's
+`Environment`, `DependsOn`, … maps; `AllServices` / `GetServices` build a fresh outer map of such values) — so the
+property's isolation clause does not speak about them; its "receiver deeply equal to what it was" clause does, and the
+oracle's `Accessors` step (`c14.history`) calls every one of them (`dependentsForService` through
+`GetDependentsForService`, `getServicesByNames` through `GetServices`) and compares the receiver cell by cell.  A new
+view breaks this theorem until the step calls it. -/
+theorem project_views_listed : CV.Gen.C14Progs.projectViews = [
+  ("Project.AllServices", "Services"),
+  ("Project.GetDisabledService", "ServiceConfig, error"),
+  ("Project.GetService", "ServiceConfig, error"),
+  ("Project.GetServices", "Services, error"),
+  ("Project.dependentsForService", "map[string]ServiceDependency"),
+  ("Project.getServicesByNames", "Services, []string")] := rfl
+
 /-- **`apply` is the source**: the skeleton of the hand-written program is the skeleton regenerated from `types/project.go` -/
 theorem apply_is_source : Deriv.renderL Deriv.applyProg = CV.Gen.C14Progs.applySkeleton := by decide +kernel
 
@@ -57,6 +72,25 @@ theorem apply_secrets_confined (p : GoVal) (args : List (String × PData)) (n : 
   have h := prog_confined projTy projPlan Deriv.applySecrets p args n applySecrets_receiver_free projPlan_deep.1 hb
   exact ⟨h.1, h.2.1, h.2.2.1,
     prog_result_isolated projTy projPlan Deriv.applySecrets p args n applySecrets_receiver_free projPlan_deep.1 hb⟩
+
+/-- the bodies that make a project out of a project, all of them: the nine derivations and the secret-content branch of `apply` -/
+def derivationBodies : List (String × List Stmt) :=
+  Deriv.programs ++ [("marshallOptions.apply[WithSecretContent]", Deriv.applySecrets)]
+
+/-- **every body that derives a project is confined** — one statement for all ten: receiver unchanged, everything
+allocated before the call unchanged, writes confined to memory allocated since the call, result isolated from the
+receiver; for every project, all arguments, any allocation state, with the copy plan in the tree now -/
+theorem all_derivations_confined (pr : String × List Stmt) (hpr : pr ∈ derivationBodies)
+    (p : GoVal) (args : List (String × PData)) (n : Nat) (hb : Below n p) :
+    let st := runProg projTy projPlan pr.2 p args n
+    getVar "p" st.vars = p ∧ (∀ u, Below n u → writes st.log u = u) ∧ Confined n st.next st.log ∧
+      Isolated (getVar "result" st.vars) p := by
+  have hrf : rfL pr.2 = true := by
+    rcases List.mem_append.mp hpr with hm | hm
+    · exact derivations_receiver_free pr hm
+    · rw [List.mem_singleton.mp hm]; exact applySecrets_receiver_free
+  have h := prog_confined projTy projPlan pr.2 p args n hrf projPlan_deep.1 hb
+  exact ⟨h.1, h.2.1, h.2.2.1, prog_result_isolated projTy projPlan pr.2 p args n hrf projPlan_deep.1 hb⟩
 
 /-- **plain rendering is the identity**: without the option nothing is allocated, nothing is written, and the project
 handed to the encoder is the receiver itself (it never leaves `MarshalYAML` / `MarshalJSON`: `marshal_reads_only_applied`) -/
